@@ -39,13 +39,13 @@ INTS = [0, -1, 7, 2 ** 63, -2 ** 63 - 1]
 
 
 def bounds(tier):
-    return {'string_len': 3 if tier == 'quick' else 4, 'separators': SEPS, 'escapechars': ESCS, 'decimals': '[-20000..20000]/1000',
+    return {'string_len': 3 if tier == 'quick' else 5, 'separators': SEPS, 'escapechars': ESCS, 'decimals': '[-20000..20000]/1000',
             'float_alphabet': len(FLOATS)}
 
 
 def units(tier):
     out = []
-    L = 3 if tier == 'quick' else 4
+    L = 3 if tier == 'quick' else 5
     for sep in SEPS:
         for esc in ESCS:
             for cols in (1, 2, 3):
